@@ -43,9 +43,29 @@ class Actor:
         self.ops = []
 
     def chan_of(self, expr):
+        cs = self.chans_of(expr)
+        return cs[0] if len(cs) == 1 else None
+
+    def chans_of(self, expr):
+        """The queue(s) a receiver expression may denote: a bound parameter / creation, or a local that is assigned one of
+        several queues (`target = q_in if selected else q_bypass`)."""
         nm = pseudo(expr)
         v = self.env.get(nm) if nm else None
-        return v if isinstance(v, Chan) else None
+        if isinstance(v, Chan):
+            return [v]
+        out = []
+        if nm and v is None:
+            for a in ast.walk(self.fi.node):
+                if isinstance(a, ast.Assign) and len(a.targets) == 1 and pseudo(a.targets[0]) == nm:
+                    srcs = [a.value.body, a.value.orelse] if isinstance(a.value, ast.IfExp) else [a.value]
+                    for s_ in srcs:
+                        c = self.env.get(pseudo(s_) or '')
+                        if isinstance(c, Chan):
+                            if c not in out:
+                                out.append(c)
+                        else:
+                            return []
+        return out
 
     def resolve(self, expr):
         """root-level text of a scalar expression (parameter names replaced by what the root passed)"""
@@ -174,15 +194,13 @@ def build(ctx, root, normalise=True):
         # channel operations
         for n in ast.walk(fi.node):
             if isinstance(n, ast.Call) and isinstance(n.func, ast.Attribute):
-                ch = actor.chan_of(n.func.value)
-                if ch is None:
-                    continue
-                if n.func.attr in ('put', 'put_nowait'):
-                    a0 = n.args[0] if n.args else None
-                    what = 'marker' if isinstance(a0, ast.Constant) and a0.value is None else 'data'
-                    actor.ops.append(Op(actor, ch, 'put', what, n))
-                elif n.func.attr in ('get', 'get_nowait'):
-                    actor.ops.append(Op(actor, ch, 'get', None, n))
+                for ch in actor.chans_of(n.func.value):
+                    if n.func.attr in ('put', 'put_nowait'):
+                        a0 = n.args[0] if n.args else None
+                        what = 'marker' if isinstance(a0, ast.Constant) and a0.value is None else 'data'
+                        actor.ops.append(Op(actor, ch, 'put', what, n))
+                    elif n.func.attr in ('get', 'get_nowait'):
+                        actor.ops.append(Op(actor, ch, 'get', None, n))
         return actor
     root_actor = visit(root, {}, 'consumer')
     return model, root_actor
